@@ -548,6 +548,36 @@ impl<S: StorageData> Exec for TransactionMut<'_, S> {
     }
 }
 
+/// The query as the serialisable `QueryType` enum (server API, C20/C21/C25).
+pub fn to_query_type(q: &CQuery) -> agdb::QueryType {
+    use agdb::QueryType as T;
+    dispatch!(
+        q,
+        |m: AnyMut| match m {
+            AnyMut::Nodes(q) => T::InsertNodes(q),
+            AnyMut::Edges(q) => T::InsertEdges(q),
+            AnyMut::Aliases(q) => T::InsertAlias(q),
+            AnyMut::Values(q) => T::InsertValues(q),
+            AnyMut::Index(q) => T::InsertIndex(q),
+            AnyMut::Remove(q) => T::Remove(q),
+            AnyMut::RemAliases(q) => T::RemoveAliases(q),
+            AnyMut::RemValues(q) => T::RemoveValues(q),
+            AnyMut::RemIndex(q) => T::RemoveIndex(q),
+        },
+        |i: AnyImm| match i {
+            AnyImm::Values(q) => T::SelectValues(q),
+            AnyImm::Keys(q) => T::SelectKeys(q),
+            AnyImm::KeyCount(q) => T::SelectKeyCount(q),
+            AnyImm::Aliases(q) => T::SelectAliases(q),
+            AnyImm::AllAliases(q) => T::SelectAllAliases(q),
+            AnyImm::EdgeCount(q) => T::SelectEdgeCount(q),
+            AnyImm::Indexes(q) => T::SelectIndexes(q),
+            AnyImm::NodeCount(q) => T::SelectNodeCount(q),
+            AnyImm::Search(q) => T::Search(q),
+        }
+    )
+}
+
 /// Read-only execution on a shared reference.
 pub fn run_read<S: StorageData>(db: &DbImpl<S>, q: &CQuery) -> Result<QueryResult, DbError> {
     dispatch!(
